@@ -112,7 +112,6 @@ HasRoute(sni)      == sni \in {"raw", "acl", "tun", "sw"}
 RouteOpt(c, s)     == IF c.proto \in {"tcp", "tcps"} THEN c.ropt ELSE IF s.sni = "acl" THEN "acl" ELSE "pxy"
 
 Hts == cfg.proto = "https+tcp+sni"
-ParserBehindDispatch == Hts /\ SniffBeforeHeader
 (* the handler reads from the connection before it asks for the client address *)
 ReadFirst == cfg.proto = "tcp" /\ cfg.ropt = "bare"
 
@@ -190,8 +189,12 @@ LineEof ==  \* the stream ends inside the header line
     /\ ph = "line" /\ scan = sent /\ fin
     /\ Kill
     /\ UNCHANGED <<cfg, scr, tbl, sent, fin, scan, hlen, disp, dtbl, tls, hs, hq, fwd, up, upeof, resps>>
-(* pxytimeout: "header read timeout".  No header recognised so far -> the connection goes *)
-(* on without one; a header begun but not finished -> the connection is closed.           *)
+(* pxytimeout: "Sets PROXY protocol header read timeout" (default 250ms) is all the         *)
+(* documentation says.  What is required of it here: the wait for a header is bounded      *)
+(* (WaitBounded), a header that did not arrive in time is never trusted (EffSound), and no *)
+(* byte is lost when the connection goes on (NoByteLost).  Which of the two ends the wait   *)
+(* takes is transcribed from the behaviour observed: nothing recognised so far -> the       *)
+(* connection goes on without a header; "PROXY " seen but the line unfinished -> closed.    *)
 Timeout ==
     /\ timer = "armed" /\ ph \in {"prefix", "line"}
     /\ timer' = "fired" /\ eff' = "peer"
